@@ -18,27 +18,20 @@ var faultClasses = []string{"truncate", "flip-structural", "inflate-prefix", "fl
 
 const hugeThreshold = 1 << 28
 
-// inflated values for a prefix of width w. Values of 2^31 and above really are allocated by a decoder
-// that trusts them (gigabytes per call), so they are only tried in runs where huge is set (rare), to
-// keep 16 parallel workers inside the machine's memory.
-func inflatedValues(w int, huge bool) []uint64 {
+// inflated values for a prefix of width w: beyond what the remaining input could hold and, for the
+// 4/8-byte widths, beyond the allocation bound. 2^31 and 2^32-1 really are allocated (and zeroed) by a
+// decoder that trusts them - gigabytes and about a second per call - so they are tried on one prefix of
+// rare "huge" runs only, to keep 16 parallel workers inside the machine's memory and budget.
+func inflatedValues(w int) []uint64 {
 	switch w {
 	case 1:
 		return []uint64{0xff, 0x80}
 	case 2:
 		return []uint64{0xffff, 0x8000, 0x0100}
 	case 4:
-		out := []uint64{1 << 20, 1 << 24, 0x00ffffff}
-		if huge {
-			out = append(out, 1<<31, 1<<32-1)
-		}
-		return out
+		return []uint64{1 << 17, 1 << 20}
 	default:
-		out := []uint64{1 << 20, 1 << 24, 1 << 63, 1<<64 - 1, 1<<63 - 1}
-		if huge {
-			out = append(out, 1<<31, 1<<32-1)
-		}
-		return out
+		return []uint64{1 << 17, 1 << 20, 1 << 63, 1<<64 - 1, 1<<63 - 1}
 	}
 }
 
@@ -118,7 +111,12 @@ func forEachFault(s *simrt.Sim, class string, in []byte, marks []mark, huge bool
 		start := s.Choose(len(ms))
 		for i := range ms {
 			m := ms[(start+i)%len(ms)]
-			for _, u := range inflatedValues(m.w, huge) {
+			vals := inflatedValues(m.w)
+			if huge && i == 0 && m.w >= 4 {
+				// one gigabyte-sized value per (rare) huge run
+				vals = append(vals, []uint64{1 << 31, 1<<32 - 1}[s.Choose(2)])
+			}
+			for _, u := range vals {
 				b := append([]byte{}, in...)
 				putLE(b, m.off, m.w, u)
 				s.Fault("inflate-" + m.kind)
